@@ -117,6 +117,8 @@ struct Ctx {
     died: Mutex<Vec<(usize, usize)>>,
     /// kernel thread ids that appeared while the dispatcher was built (a superset of its workers)
     worker_tids: Mutex<Vec<u64>>,
+    /// gated blocking closures (`g` lines) keep their pool thread busy until this is set
+    gate: std::sync::atomic::AtomicBool,
 }
 
 impl Ctx {
@@ -132,6 +134,7 @@ impl Ctx {
             problems: Mutex::new(vec![]),
             died: Mutex::new(vec![]),
             worker_tids: Mutex::new(vec![]),
+            gate: std::sync::atomic::AtomicBool::new(false),
         })
     }
 
@@ -286,6 +289,16 @@ async fn body(ctx: Arc<Ctx>, spec: Spec) -> u64 {
     }
 }
 
+/// a blocking closure that occupies its pool thread until the gate opens (bounded: 20 s)
+fn gated_body(ctx: &Ctx, t: usize, end: End) -> u64 {
+    let v = blocking_body(ctx, t, end);
+    let t0 = Instant::now();
+    while !ctx.gate.load(Ordering::SeqCst) && t0.elapsed() < Duration::from_secs(20) {
+        thread::sleep(Duration::from_micros(200));
+    }
+    v
+}
+
 fn blocking_body(ctx: &Ctx, t: usize, end: End) -> u64 {
     {
         let mut log = ctx.log.lock().unwrap();
@@ -315,6 +328,8 @@ struct Cfg {
     affinity: bool,
     capacity: Option<u32>,
     poll_driver: bool,
+    /// `ProactorBuilder::thread_pool_limit` of the pool shared by the dispatcher and its workers
+    pool_limit: Option<usize>,
 }
 
 fn parse_cfg(ws: &[&str]) -> Option<Cfg> {
@@ -327,7 +342,7 @@ fn parse_cfg(ws: &[&str]) -> Option<Cfg> {
     if w == 0 || w > MAX_WORKERS {
         return None;
     }
-    let mut cfg = Cfg { w, conc, stack: None, affinity: false, capacity: None, poll_driver: false };
+    let mut cfg = Cfg { w, conc, stack: None, affinity: false, capacity: None, poll_driver: false, pool_limit: None };
     for o in &ws[2..] {
         if let Some(v) = o.strip_prefix("stack=") {
             cfg.stack = v.parse().ok();
@@ -337,6 +352,8 @@ fn parse_cfg(ws: &[&str]) -> Option<Cfg> {
             cfg.capacity = v.parse().ok();
         } else if *o == "drv=poll" {
             cfg.poll_driver = true;
+        } else if let Some(v) = o.strip_prefix("pool=") {
+            cfg.pool_limit = v.parse().ok();
         }
     }
     Some(cfg)
@@ -376,8 +393,11 @@ fn build_inner(cfg: &Cfg, ctx: &Arc<Ctx>) -> std::io::Result<Dispatcher> {
         let n = thread::available_parallelism().map(|n| n.get()).unwrap_or(1);
         b = b.thread_affinity(move |_| (0..n).collect());
     }
-    if cfg.capacity.is_some() || cfg.poll_driver {
+    if cfg.capacity.is_some() || cfg.poll_driver || cfg.pool_limit.is_some() {
         let mut pb = ProactorBuilder::new();
+        if let Some(l) = cfg.pool_limit {
+            pb.thread_pool_limit(l);
+        }
         if let Some(c) = cfg.capacity {
             pb.capacity(c);
         }
@@ -482,11 +502,11 @@ impl Det {
         }
     }
 
-    fn dispatch_blocking(&mut self, t: usize, end: End) -> String {
+    fn dispatch_blocking(&mut self, t: usize, end: End, gated: bool) -> String {
         let Some(d) = &self.disp else { return "no-dispatcher".into() };
         let ctx = self.ctx.clone();
         self.specs.insert(t, (end, true));
-        match d.dispatch_blocking(move || blocking_body(&ctx, t, end)) {
+        match d.dispatch_blocking(move || if gated { gated_body(&ctx, t, end) } else { blocking_body(&ctx, t, end) }) {
             Ok(rx) => {
                 self.accepted.insert(t);
                 self.rxs.insert(t, rx);
@@ -565,6 +585,13 @@ impl Det {
         let alive = alive_workers(&self.ctx);
         if alive != 0 && out != "hang" {
             ex.fail("C18:worker-alive-after-join", format!("{alive} worker thread(s) still exist after join returned"));
+            ex.fail(
+                "C18:join-returned-early",
+                format!("join returned ({out}) while {alive} worker thread(s) were still running"),
+            );
+        }
+        if out.starts_with("err") {
+            ex.fail("C18:join-result", format!("join failed with an io error ({out}): it must wait for the workers, also when the blocking pool is saturated"));
         }
         let died = !self.ctx.died.lock().unwrap().is_empty();
         let bombs_started = self
@@ -581,7 +608,7 @@ impl Det {
         if self.ctx.sequential && bombs_started > 0 && out == "ok" {
             ex.fail("C18:join-result", "sequential mode: a worker was inside a bomb task, join returned Ok".to_string());
         }
-        if self.ctx.sequential && !died && out == "ok" {
+        if self.ctx.sequential && !died && out != "hang" {
             for t in &self.accepted {
                 let (_, blocking) = self.specs[t];
                 if blocking {
@@ -593,6 +620,12 @@ impl Det {
                     ex.fail("C18:never-started", format!("sequential mode: accepted task {t} was never started although join returned"));
                 } else if en == 0 {
                     ex.fail("C18:unfinished-at-join", format!("sequential mode: task {t} had not finished when join returned"));
+                }
+                if st == 0 || en == 0 {
+                    ex.fail(
+                        "C18:join-returned-early",
+                        format!("sequential mode: join returned ({out}) while accepted task {t} was unfinished"),
+                    );
                 }
             }
         }
@@ -683,10 +716,21 @@ fn exec_det(rt: &Runtime, case: &Case) -> Exec {
                 ["b", t, end] => match (t.parse::<usize>(), parse_end(end)) {
                     (Ok(t), Some(end)) if t < MAX_TASKS && !d.specs.contains_key(&t) => {
                         ex.tag("body:blocking");
-                        d.dispatch_blocking(t, end)
+                        d.dispatch_blocking(t, end, false)
                     }
                     _ => "bad-op".into(),
                 },
+                ["g", t, end] => match (t.parse::<usize>(), parse_end(end)) {
+                    (Ok(t), Some(end)) if t < MAX_TASKS && !d.specs.contains_key(&t) => {
+                        ex.tag("body:gated-blocking");
+                        d.dispatch_blocking(t, end, true)
+                    }
+                    _ => "bad-op".into(),
+                },
+                ["release"] => {
+                    d.ctx.gate.store(true, Ordering::SeqCst);
+                    "ok".into()
+                }
                 ["drop", t] => match t.parse::<usize>() {
                     Ok(t) if d.rxs.remove(&t).is_some() => "ok".into(),
                     _ => "bad-op".into(),
@@ -699,7 +743,10 @@ fn exec_det(rt: &Runtime, case: &Case) -> Exec {
                     }
                     _ => "bad-op".into(),
                 },
-                ["join"] => {
+                ["join"] | ["join", "f"] => {
+                    if ws.len() == 2 {
+                        ex.tag("join:pool-saturated");
+                    }
                     let o = d.join(&mut ex).await;
                     ex.tag(format!("join:{}", o.split(' ').next().unwrap()));
                     o
@@ -726,7 +773,8 @@ fn exec_det(rt: &Runtime, case: &Case) -> Exec {
             };
             outs.push(out);
         }
-        // never leave worker threads behind
+        // never leave worker or pool threads behind
+        d.ctx.gate.store(true, Ordering::SeqCst);
         if d.disp.is_some() {
             let mut scratch = Exec::new();
             let _ = d.join(&mut scratch).await;
@@ -873,7 +921,12 @@ fn judge_hist(ws: &[&str], ex: &mut Exec) -> String {
                     bad(ex, "C18:receiver-hang-before-join", format!("receiver of task {t} unresolved (join not returned)"));
                 }
             }
-            "J" => join_called = true,
+            "J" | "JF" => {
+                join_called = true;
+                if p[0] == "JF" {
+                    ex.tag("hist:pool-saturated");
+                }
+            }
             "R" => {
                 join_ret = true;
                 if !join_called {
@@ -899,6 +952,9 @@ fn judge_hist(ws: &[&str], ex: &mut Exec) -> String {
                         } else if !finished.contains(t) {
                             bad(ex, "C18:unfinished-at-join", format!("sequential mode: task {t} had not finished when join returned"));
                         }
+                        if !finished.contains(t) {
+                            bad(ex, "C18:join-returned-early", format!("sequential mode: join returned while accepted task {t} was unfinished"));
+                        }
                     }
                 }
                 if !conc {
@@ -911,6 +967,7 @@ fn judge_hist(ws: &[&str], ex: &mut Exec) -> String {
                 let n = num(1).unwrap_or(99);
                 if n != 0 {
                     bad(ex, "C18:worker-alive-after-join", format!("{n} worker thread(s) still exist after join returned"));
+                    bad(ex, "C18:join-returned-early", format!("join returned while {n} worker thread(s) were still running"));
                 }
             }
             "Rhang" => bad(ex, "C18:join-hang", "join did not return".into()),
@@ -993,6 +1050,22 @@ fn log_seen(ctx: &Ctx, t: usize, r: Option<Result<u64, oneshot::Canceled>>) {
 fn run_conc(rt: &Runtime, cfg: &Cfg, plan: Vec<Vec<PlanTask>>, join_at: JoinAt) -> String {
     let ctx = Ctx::new(!cfg.conc, true);
     let disp = Arc::new(build(cfg, &ctx).expect("build dispatcher"));
+    // a limited pool is saturated by gated blocking closures (ids 400..) before anything else happens: `join`
+    // will find no pool thread for its joiner closure. The gate opens after join has returned.
+    let saturated = cfg.pool_limit.is_some();
+    let mut gate_rx: Vec<(usize, oneshot::Receiver<u64>)> = vec![];
+    for k in 0..cfg.pool_limit.unwrap_or(0) {
+        let t = 400 + k;
+        ctx.push(format!("I.{t}.v{t}"));
+        let c2 = ctx.clone();
+        match disp.dispatch_blocking(move || gated_body(&c2, t, End::Val(t as u64))) {
+            Ok(rx) => {
+                ctx.push(format!("a.{t}"));
+                gate_rx.push((t, rx));
+            }
+            Err(_) => ctx.push(format!("r.{t}")),
+        }
+    }
     let mut handles = vec![];
     for (th, tasks) in plan.into_iter().enumerate() {
         let ctx = ctx.clone();
@@ -1075,7 +1148,7 @@ fn run_conc(rt: &Runtime, cfg: &Cfg, plan: Vec<Vec<PlanTask>>, join_at: JoinAt) 
             }
         }
         let disp = Arc::try_unwrap(disp).expect("dispatcher still shared");
-        ctx.push("J".into());
+        ctx.push(if saturated { "JF".into() } else { "J".into() });
         let res = compio_runtime::time::timeout(JOIN_WATCHDOG, AssertUnwindSafe(disp.join()).catch_unwind()).await;
         match res {
             Err(_) => ctx.push("Rhang".into()),
@@ -1090,6 +1163,8 @@ fn run_conc(rt: &Runtime, cfg: &Cfg, plan: Vec<Vec<PlanTask>>, join_at: JoinAt) 
             }
         }
         ctx.push(format!("L.{}", alive_workers(&ctx)));
+        ctx.gate.store(true, Ordering::SeqCst);
+        rest.extend(gate_rx);
         for (t, rx) in rest {
             let r = compio_runtime::time::timeout(Duration::from_secs(2), rx).await.ok();
             log_seen(&ctx, t, r);
@@ -1353,6 +1428,87 @@ fn gen_det(rng: &mut Rng) -> Vec<String> {
     l
 }
 
+/// the blocking pool (limit 1 or 2, shared by the dispatcher and its workers) is saturated by gated blocking
+/// closures when `join` is called: `AsyncifyPool::dispatch` refuses the closure that joins the worker
+/// threads, and `join` has to run it on a thread of its own -- and still wait for every worker. In half of the
+/// programs the gate opens first, so the joiner goes to the pool.
+fn gen_saturated(rng: &mut Rng) -> Vec<String> {
+    let w = rng.range(1, 4) as usize;
+    let conc = rng.chance(1, 2);
+    let limit = rng.range(1, 2) as usize;
+    let mut l = vec![format!("cfg {w} {} cap={} pool={limit}", if conc { "c" } else { "s" }, rng.pick(&[16u32, 64]))];
+    let mut next = 1usize;
+    let mut gates = vec![];
+    for _ in 0..limit {
+        l.push(format!("g {next} v{}", rng.below(1000)));
+        gates.push(next);
+        next += 1;
+    }
+    // (task, determinate after join?)
+    let mut tasks: Vec<(usize, bool, bool)> = vec![];
+    let mut bombed = false;
+    for _ in 0..rng.range(1, 7) {
+        let t = next;
+        next += 1;
+        let susp = gen_susp_no_io(rng);
+        let end = match rng.below(16) {
+            0 => End::Panic,
+            1..=2 if conc => End::Never,
+            3 if !bombed && w >= 2 => End::Bomb,
+            _ => End::Val(rng.below(1000)),
+        };
+        l.push(format!("d {t} {susp} {}", show_end(end)));
+        let zero = susp == "-";
+        match end {
+            End::Bomb => {
+                bombed = true;
+                if conc {
+                    for x in tasks.iter_mut() {
+                        if !x.2 {
+                            x.1 = false;
+                        }
+                    }
+                }
+                l.push(format!("wait {t}"));
+                tasks.push((t, true, true));
+            }
+            End::Val(_) | End::Panic if !conc || zero || rng.chance(1, 2) => {
+                let waited = !(!conc || zero) || rng.chance(1, 3);
+                if waited {
+                    l.push(format!("wait {t}"));
+                }
+                tasks.push((t, true, waited));
+            }
+            End::Never => tasks.push((t, true, true)),
+            _ => tasks.push((t, false, false)),
+        }
+    }
+    let early_release = rng.chance(1, 3);
+    if early_release {
+        l.push("release".into());
+        for g in &gates {
+            l.push(format!("wait {g}"));
+        }
+        // (the pool threads are parked again: the joiner closure goes to the pool)
+        l.push("join".into());
+    } else {
+        l.push("join f".into());
+        l.push("release".into());
+    }
+    for g in &gates {
+        l.push(format!("rx {g}"));
+        l.push(format!("stat {g}"));
+    }
+    for (t, det, _) in &tasks {
+        if *det {
+            l.push(format!("rx {t}"));
+            l.push(format!("stat {t}"));
+        }
+    }
+    l.push("alive".into());
+    l
+}
+
 /// a burst of short tasks and an immediate join: more tasks than one executor tick polls (61). Sequential
 /// mode must run all of them; concurrent mode may drop the rest unstarted (counted as a tag).
 fn gen_burst(rng: &mut Rng) -> Vec<String> {
@@ -1379,13 +1535,19 @@ fn gen_burst(rng: &mut Rng) -> Vec<String> {
 fn plan_conc(rng: &mut Rng, big: bool) -> (Cfg, Vec<Vec<PlanTask>>, JoinAt) {
     let (w, conc, cfgline) = gen_cfg(rng);
     let cfgws: Vec<&str> = cfgline.split_whitespace().skip(1).collect();
-    let cfg = parse_cfg(&cfgws).unwrap();
+    let mut cfg = parse_cfg(&cfgws).unwrap();
     let nthreads = match rng.below(6) {
         0 => 1,
         1..=2 => 2,
         3 => 4,
         _ => rng.range(1, 8) as usize,
     };
+    // one history in six runs with a blocking pool of 1 or 2 threads that is saturated when join is called
+    // (no other user of the pool then: no pipe I/O, no further blocking closures)
+    let saturate = rng.chance(1, 6);
+    if saturate {
+        cfg.pool_limit = Some(rng.range(1, 2) as usize);
+    }
     let with_bombs = rng.chance(1, 5);
     let join_at = match rng.below(if with_bombs { 2 } else { 3 }) {
         0 => JoinAt::Immediately,
@@ -1401,8 +1563,8 @@ fn plan_conc(rng: &mut Rng, big: bool) -> (Cfg, Vec<Vec<PlanTask>>, JoinAt) {
         for _ in 0..n {
             let t = next;
             next += 1;
-            let blocking = rng.chance(1, 12);
-            let susp = gen_susp(rng);
+            let blocking = !saturate && rng.chance(1, 12);
+            let susp = if saturate { gen_susp_no_io(rng) } else { gen_susp(rng) };
             let end = if blocking {
                 // (never a panic here: with several dispatching threads that is the F170 scenario of C17,
                 // see `gen_det`)
@@ -1480,6 +1642,9 @@ fn main() {
             }
             for i in 0..n_big {
                 cases.push(Case { name: format!("burst/{i}"), lines: gen_burst(rng) });
+            }
+            for i in 0..n_det / 8 {
+                cases.push(Case { name: format!("saturated/{i}"), lines: gen_saturated(rng) });
             }
             cases.extend(gen_conc_all(rng, n_conc, n_big));
             cases
